@@ -83,13 +83,16 @@ def suite_codecs(ctx):
     # decoding is a function of the byte alone: what a caller did to an earlier result (the objects are mutable: flags are set on a decoded
     # status before it is sent back, availability masks are edited) must not show in the next decode of the same byte
     def scramble(obj, depth=0):
-        for k_, v_ in list(vars(obj).items()):
-            if isinstance(v_, bool):
-                setattr(obj, k_, not v_)
-            elif isinstance(v_, int):
-                setattr(obj, k_, (v_ + 1) & 0xF)
-            elif hasattr(v_, '__dict__') and depth < 2:
-                scramble(v_, depth + 1)
+        for k_, v_ in list(getattr(obj, '__dict__', {}).items()):
+            try:
+                if isinstance(v_, bool):
+                    setattr(obj, k_, not v_)
+                elif isinstance(v_, int):
+                    setattr(obj, k_, (v_ + 1) & 0xF)
+                elif hasattr(v_, '__dict__') and depth < 2:
+                    scramble(v_, depth + 1)
+            except Exception:  # noqa   (an object that cannot be edited cannot leak edits either)
+                pass
     for name, dec, mask in (('Status', Dtc.Status.from_byte, 0xFF), ('Severity', Dtc.Severity.from_byte, 0xE0), ('DtcClass', Dtc.DtcClass.from_byte, 0x1F),
                             ('CommunicationType', CommunicationType.from_byte, 0xFF), ('DataFormatIdentifier', DataFormatIdentifier.from_byte, 0xFF)):
         for b in range(256):
